@@ -132,24 +132,20 @@ def dateStrOpt : Option Date → Bytes
 
 def pathKeyOf (e : Entry) : Cps := decodeSE (e.loc ++ dateStrOpt e.date)
 
-def dateLe (a c : Entry) : Bool :=
-  match a.date, c.date with
-  | some x, some y => x.toSec ≤ y.toSec
-  | _, _ => true
+/-- `x.deletion_date or datetime.datetime.min` on the seconds scale (0001-01-01T00:00:00 = 86400) -/
+def dateRank (e : Entry) : Nat :=
+  match e.date with
+  | some d => d.toSec
+  | Option.none => 86400
 
-inductive Sorted where
-  | ok (es : List Entry)
-  | crash             -- TypeError: comparison with None, or NoSorter used as an instance
-deriving DecidableEq, Repr
+def dateLe (a c : Entry) : Bool := dateRank a ≤ dateRank c
 
-/-- `sort_files(sort, trashed_files)` on the pinned tree -/
-def sortEntries (mode : SortMode) (es : List Entry) : Sorted :=
+/-- `sort_files(sort, trashed_files)`: Python's `sorted` is stable, as is `mergeSort` -/
+def sortEntries (mode : SortMode) (es : List Entry) : List Entry :=
   match mode with
-  | .none => .crash    -- `NoSorter.sort_files(trashed_files)`: the class is never instantiated
-  | .path => .ok (es.mergeSort fun a c => cpsLe (pathKeyOf a) (pathKeyOf c))
-  | .date =>
-    if es.length ≥ 2 ∧ es.any (fun e => e.date.isNone) then .crash
-    else .ok (es.mergeSort dateLe)
+  | .none => es
+  | .path => es.mergeSort fun a c => cpsLe (pathKeyOf a) (pathKeyOf c)
+  | .date => es.mergeSort dateLe
 
 /-! ### prompts -/
 
